@@ -5,6 +5,7 @@ import warnings
 import torch
 import xitorch
 import xitorch.integrate
+import xitorch.linalg
 import xitorch.optimize
 from xitorch import EditableModule
 
@@ -79,6 +80,34 @@ def _call(fname, fn, params, bck=None):
                                     custom_step=lambda x, *p: x * 0.5 + 0.3)
 
 
+_S0 = torch.tensor([[2.0, 0.3, 0.0], [0.3, 1.5, 0.2], [0.0, 0.2, 1.8]], dtype=DT)
+_B = torch.tensor([[1.0, 0.5], [2.0, -1.0], [-1.0, 0.3]], dtype=DT)
+
+
+class HeldOp(xitorch.LinearOperator):
+    """matrix-free Hermitian operator S0 + diag(exp(s)) holding the tensor s (re-assigned by the caller between calls)"""
+
+    def __init__(self, s):
+        super().__init__(shape=(3, 3), is_hermitian=True, dtype=DT)
+        self.s = s
+
+    def _mv(self, x):
+        return x @ _S0.T + x * torch.exp(self.s)
+
+    def _getparamnames(self, prefix=""):
+        return [prefix + "s"]
+
+
+LINALG = {"solve": lambda A: xitorch.linalg.solve(A, _B), "solve-cg": lambda A: xitorch.linalg.solve(A, _B, method="cg", rtol=1e-12, atol=1e-14),
+          "symeig": lambda A: xitorch.linalg.symeig(A, neig=2, method="custom_exacteig")[0],
+          "symeig-davidson": lambda A: xitorch.linalg.symeig(A, neig=2, method="davidson", min_eps=1e-12)[0]}
+
+
+def _linalg_ref(fname, s):
+    D = _S0 + torch.diag(torch.exp(s))
+    return torch.linalg.solve(D, _B) if fname.startswith("solve") else torch.linalg.eigh(D)[0][:2]
+
+
 _METHOD = {"rootfinder": "root", "equilibrium": "fixed", "minimize": "energy", "solve_ivp": "rhs", "quad": "integrand", "mcquad": "mcf"}
 
 
@@ -99,20 +128,26 @@ def replay(ctx, functionals, prefix, maxlen=6):
     with warnings.catch_warnings():
         warnings.simplefilter("ignore")
         for fname in functionals:
-            for kind, bck in (("edit", None), ("nn", None)) + ((("edit", {"method": "cg"}),) if fname in ("rootfinder", "equilibrium", "minimize") else ()):
+            for kind, bck in ((("linop", None),) if fname in LINALG else
+                              (("edit", None), ("nn", None)) + ((("edit", {"method": "cg"}),) if fname in ("rootfinder", "equilibrium", "minimize") else ())):
                 for hist in hists:
                     n += 1
                     ctx.case(key=("objstate", fname, kind, bool(bck), hist))
                     why = None
                     try:
                         vals = [torch.tensor(v, dtype=DT) for v in ([0.5, -0.3, 0.8], [-0.2, 0.6, 0.1])]
-                        if kind == "edit":
+                        if kind == "linop":
+                            tens = [v.clone().requires_grad_() for v in vals]
+                            obj = HeldOp(tens[0])
+                            fn = None
+                        elif kind == "edit":
                             tens = [v.clone().requires_grad_() for v in vals]
                             obj = EMod(tens[0])
                         else:
                             tens = [torch.nn.Parameter(v.clone()) for v in vals]
                             obj = NMod(tens[0])
-                        fn = getattr(obj, _METHOD[fname])
+                        if kind != "linop":
+                            fn = getattr(obj, _METHOD[fname])
                         outs, saw = [], []
                         wv = torch.tensor([0.7, -1.1, 0.4], dtype=DT)
                         for a, k in hist:
@@ -120,11 +155,12 @@ def replay(ctx, functionals, prefix, maxlen=6):
                                 obj.s = tens[k - 1]
                             elif a == "call":
                                 torch.manual_seed(5)
-                                outs.append(_call(fname, fn, (), bck))
+                                outs.append(LINALG[fname](obj) if kind == "linop" else _call(fname, fn, (), bck))
                                 saw.append([i for i, t_ in enumerate(tens) if t_ is obj.s][0])
                             else:
                                 held_before = obj.s
                                 out = outs[k - 1]
+                                wv = torch.cos(torch.arange(out.numel(), dtype=DT) + 0.3).reshape(out.shape)
                                 g = torch.autograd.grad((out * wv).sum(), tens, allow_unused=True, retain_graph=True)
                                 if obj.s is not held_before:
                                     why = "after the backward pass of call %d the object holds another tensor than before it" % k
@@ -132,7 +168,7 @@ def replay(ctx, functionals, prefix, maxlen=6):
                                 j = saw[k - 1]
                                 sref = vals[j].clone().requires_grad_()
                                 torch.manual_seed(5)
-                                oref = _call(fname, _pure(fname), (sref,), bck)
+                                oref = _linalg_ref(fname, sref) if kind == "linop" else _call(fname, _pure(fname), (sref,), bck)
                                 gref, = torch.autograd.grad((oref * wv).sum(), [sref])
                                 if not torch.allclose(out.detach(), oref.detach(), atol=1e-9):
                                     why = "call %d differs from the function form at the tensor the object held then" % k
@@ -147,6 +183,6 @@ def replay(ctx, functionals, prefix, maxlen=6):
                         why = "raised %s: %s" % (type(e).__name__, str(e)[:140])
                     if why:
                         ctx.violation("%s/objstate/%s" % (prefix, fname), "%s on a %s object%s with the history %s: %s"
-                                      % (fname, "EditableModule" if kind == "edit" else "torch.nn.Module", " (iterative backward solve)" if bck else "",
+                                      % (fname, {"edit": "EditableModule", "nn": "torch.nn.Module", "linop": "LinearOperator"}[kind], " (iterative backward solve)" if bck else "",
                                          ["%s %d" % (a, k) if a != "call" else "call" for a, k in hist], why), {"f": fname, "kind": kind, "history": [list(h_) for h_ in hist]})
     return n
